@@ -159,3 +159,12 @@ CLAIMED["C11"] = (
  "length size, offset 0). Release of mapping / temp file / descriptor on every path is decided under C13. Does not decide that the two mappings alias (MMU) nor negative amounts.",
  COMMON_NOTE,
  "DESIGN.md section 5 C11")
+
+CLAIMED["C20"] = (
+ "counter/event pairing by guard literals on the container's outcomes, dominance of capacity checks over mutations, path enumeration of the duplicate outcome, value identity in Offset/Add, clamp recognition in OffsetSlot",
+ "Static necessary-condition analysis. Decides that SlotSequencer.bytes follows exactly the ok/err outcomes of the container's Push/Pop and is reset with container and offsetter, that capacity tests precede every "
+ "mutation and a duplicate leaves the container untouched, that Pop offsets and returns the popped slot on the ok path and resets the offsetter only when empty, that Offset queries and records at the same index "
+ "with the slot's length, that Add shifts by the discarded total and rejects indices beyond the tree, that OffsetSlot clamps to [0, Index], and that the container inserts/removes at the ordered search position. "
+ "Does not decide the Fenwick prefix sums nor the index translation itself (numeric loop invariants).",
+ COMMON_NOTE,
+ "DESIGN.md section 5 C20")
